@@ -173,10 +173,28 @@ def strip_comments(src):
     return ''.join(out)
 
 
+def import_closure(modules):
+    """Lean source files (of this project) transitively imported by the given modules."""
+    seen, todo = {}, list(modules)
+    while todo:
+        m = todo.pop()
+        if m in seen:
+            continue
+        path = os.path.join(LEAN, *m.split('.')) + '.lean'
+        if not os.path.exists(path):
+            continue
+        seen[m] = path
+        for line in open(path):
+            mm = re.match(r'^\s*(?:public\s+)?import\s+([A-Za-z0-9_.]+)', line)
+            if mm and (mm.group(1).startswith('Wbxml') or mm.group(1).startswith('Driver')):
+                todo.append(mm.group(1))
+    return sorted(seen.values())
+
+
 def grep_forbidden(paths=None):
     """The stranger's grep over the Lean sources (comments and strings stripped)."""
     hits = []
-    paths = paths or glob.glob(os.path.join(LEAN, '**', '*.lean'), recursive=True)
+    paths = paths if paths is not None else glob.glob(os.path.join(LEAN, '**', '*.lean'), recursive=True)
     for p in paths:
         if '/.lake/' in p:
             continue
@@ -290,6 +308,16 @@ def theorems_in(path):
     return out
 
 
+def _exe_root(target):
+    """root module of a lean_exe target named in lakefile.toml"""
+    try:
+        txt = open(os.path.join(LEAN, 'lakefile.toml')).read()
+    except OSError:
+        return None
+    m = re.search(r'name\s*=\s*"%s"\s*\nroot\s*=\s*"([^"]+)"' % re.escape(target), txt)
+    return m.group(1) if m else None
+
+
 def proof_step(res, modules, namespace, extra_targets=()):
     """Build the property's Props module(s), audit axioms, fill obligations/discharged.
     Returns (ok, failing) where failing is a list of theorem names whose proof no longer checks
@@ -316,7 +344,9 @@ def proof_step(res, modules, namespace, extra_targets=()):
     failing = sorted(set(failing))
     res.discharged += len(thms) - len([f for f in failing if not f.startswith('<')]) if ok or failing != ['<build>'] else 0
     # stranger's audit
-    hits = grep_forbidden()
+    # every source file the property's theorems (and the drivers used) depend on
+    roots = list(modules) + [t2 for t2 in (_exe_root(t) for t in extra_targets) if t2]
+    hits = grep_forbidden(import_closure(roots))
     res.coverage['forbidden_token_hits'] = hits
     if hits:
         failing.append('<forbidden:' + hits[0] + '>')
